@@ -245,7 +245,7 @@ def edit(d, rnd):
     if kind == 'add_id':
         c = rnd.choice(d['classes'])
         names = [a['n'] for a in c['attrs']]
-        if len(c['ids']) >= 3:
+        if len(c['ids']) >= 3 or not names:
             return None, kind
         c['ids'].append(rnd.sample(names, rnd.randint(1, min(2, len(names)))))
         return d, kind
